@@ -750,10 +750,23 @@ pub fn analyse(rep: &RunReport) -> Verdict {
     // C10 at the first quiescence of each phase
     if !prog.blocked_objs.is_empty() || !prog.blocking_gates.is_empty() {
         for (pi, snap) in facts.q1.iter().enumerate() {
+            // the pool maximum in force during this phase: with no pool thread allowed nothing is promised
+            let mut eff_max = prog.pool_max;
+            for ph in prog.phases.iter().take(pi + 1) {
+                for c in &ph.ctl {
+                    if let CtlOp::SetMaxLazy(n) | CtlOp::SetMaxEager(n) = c {
+                        eff_max = *n;
+                    }
+                }
+            }
+            if eff_max == 0 {
+                continue;
+            }
             for id in &snap.unfinished {
                 let r = &ops[*id as usize];
                 let Some(o) = r.obj else { continue };
-                if prog.blocked_objs.contains(&o) || panicked_obj(Some(o)) || r.phase != pi {
+                // (work accepted in an earlier phase, while no pool thread was allowed, counts from the phase that raises the maximum)
+                if prog.blocked_objs.contains(&o) || panicked_obj(Some(o)) || r.phase > pi {
                     continue;
                 }
                 if !matches!(r.outcome, CallOutcome::Returned(_) | CallOutcome::InCall) {
@@ -762,7 +775,7 @@ pub fn analyse(rep: &RunReport) -> Verdict {
                 if r.kind == Kind::FutureSync {
                     continue;
                 }
-                v(&mut out, "C10", "blocked_by_other_object", &[*id], snap.seq, format!("{} {} on object {} had not finished at quiescence although only objects {:?} were blocked (pool maximum {})", r.tag, id, o, prog.blocked_objs, prog.pool_max));
+                v(&mut out, "C10", "blocked_by_other_object", &[*id], snap.seq, format!("{} {} on object {} had not finished at quiescence although only objects {:?} were blocked (pool maximum {})", r.tag, id, o, prog.blocked_objs, eff_max));
             }
         }
     }
